@@ -51,6 +51,8 @@ func init() { wire = startWire() }
 
 var errRecorded = errors.New("recorded")
 
+const driverRefused = "driver refused the statement: "
+
 // ------------------------------------------------------------------ the wire (round 6, seeded C10-f)
 //
 // The statement that reaches ClickHouse is NOT the text handed to ISqlxDB.QueryCtx: once the call has bind arguments, clickhouse-go's
@@ -148,13 +150,17 @@ type recDB struct {
 	q     []string
 	pre   []string
 	nargs []int
+	refused []string // statements the driver did not send (its bind found a placeholder without argument, mixed formats, ...)
 	fail  bool // answer an error instead of an empty result set
 	dbnam string
 }
 
 func (r *recDB) GetName() string { return r.dbnam }
-func (r *recDB) record(query string, args []any, got []string) {
+func (r *recDB) record(query string, args []any, got []string, err error) {
 	r.mu.Lock()
+	if len(got) == 0 {
+		r.refused = append(r.refused, short(err))
+	}
 	for _, g := range got {
 		r.q = append(r.q, g)
 		r.pre = append(r.pre, query)
@@ -166,7 +172,7 @@ func (r *recDB) QueryCtx(ctx context.Context, query string, args ...any) (*dsql.
 	got, rows, err := wire.send(false, query, args)
 	// the two statements of dbVersion.GetVersionInfo are constant and cached per time window: not part of the request
 	if !strings.HasPrefix(query, "SELECT argMax(name, inserted_at)") && query != "SHOW TABLES" {
-		r.record(query, args, got)
+		r.record(query, args, got, err)
 	}
 	if r.fail {
 		if rows != nil {
@@ -177,8 +183,8 @@ func (r *recDB) QueryCtx(ctx context.Context, query string, args ...any) (*dsql.
 	return rows, err
 }
 func (r *recDB) ExecCtx(ctx context.Context, query string, args ...any) error {
-	got, _, _ := wire.send(true, query, args)
-	r.record(query, args, got)
+	got, _, err := wire.send(true, query, args)
+	r.record(query, args, got, err)
 	return errRecorded
 }
 func (r *recDB) Conn(ctx context.Context) (*dsql.Conn, error) { return nil, errRecorded }
@@ -374,6 +380,9 @@ func runLogql(q string, cluster bool, direct bool) ([]string, string) {
 		return nil, "plan: " + short(err)
 	}
 	_, err = chain[0].Process(ctx, nil)
+	if len(db.refused) > 0 {
+		return nil, driverRefused + db.refused[0]
+	}
 	if len(db.q) == 0 {
 		return nil, "process: " + short(err)
 	}
@@ -591,6 +600,10 @@ func svcSite(name string, cluster bool, call func(reg *registry, v string) (want
 		reg, db := newReg(cluster)
 		want, err := call(reg, v)
 		sqls := db.take()
+		if len(db.refused) > 0 {
+			// round 6: the request string made the DRIVER refuse a statement of the service (a bind placeholder without argument, ...)
+			return rejected(driverRefused + db.refused[0])
+		}
 		if len(sqls) == 0 {
 			return rejected("service: " + short(err))
 		}
